@@ -83,7 +83,11 @@ def gen_scenarios(seed, tier):
                     lay[1]["count"] = rng.choice([1, 2])
             if kind == "poll":
                 lay[1]["poll_script"] = [x for x in lay[1]["poll_script"] if x != "none"] or ["yield"]
-            t0 = rng.choice([0.5, 2.0, 5.0])
+            if kind == "retry":
+                lay = ["retry", {"max_attempts": 2, "sleep": 1.0, "exponent": 1.0, "max_sleep": 3.0, "exception_base": ["E0"]}]
+            # the shutdowns come when the submission has long finished (this check compares counters with events at quiescence; what
+            # a shutdown does to work that is still outstanding is C11's subject)
+            t0 = rng.choice([20.0, 25.0, 40.0])
             clients = [[["submit", "k0", [[["sleep", rng.choice([0.0, 1.0])], ["ret", 1]]]], ["sleep", t0], ["shutdown", rng.choice([True, False])]],
                        [["sleep", t0], ["shutdown", rng.choice([True, False])]]]
             if rng.random() < 0.3:
